@@ -15,21 +15,18 @@ def nazQazAngle (theta alpha : α) (tau : Option α) : Py (Option α) :=
       if isSmall (sin tau) then .ok (some zero)
       else do
         let top := cos tau - sin alpha * sin theta
-        let b ← bound (top / bottom)
-        let a ← pyAcos b
+        let a ← boundAcos (top / bottom)
         pure (some a)
 
 /-- `_calc_remaining_detector_angles_delta` -/
+def acosNu (delta theta : α) : Py α :=
+  if isSmall (cos delta) then pure zero else boundAcos (cos (two * theta) / cos delta)
+
 def detFromDelta (delta theta : α) : Py (List (α × α × α)) :=
   catchAssert do
-    let b ← bound (sin delta / sin (two * theta))
-    let asin_qaz ← pyAsin b
+    let asin_qaz ← boundAsin (sin delta / sin (two * theta))
     let cos_delta := cos delta
-    let acos_nu ←
-      if isSmall cos_delta then (pure zero : Py α)
-      else do
-        let b2 ← bound (cos (two * theta) / cos_delta)
-        pyAcos b2
+    let acos_nu ← acosNu delta theta
     let qaz_angles := if isSmall (cos asin_qaz) then [sign asin_qaz * pi / two] else [asin_qaz, pi - asin_qaz]
     let nu_angles := if isSmall acos_nu then [zero] else [acos_nu, -acos_nu]
     let pairs := qaz_angles.flatMap fun qaz => nu_angles.map fun nu => (qaz, nu)
@@ -48,10 +45,8 @@ def detFromNu (nu theta : α) : Py (List (α × α × α)) :=
     let cos_delta := cos_2theta / cos nu
     let cos_qaz := cos_delta * sin nu / sin_2theta
     catchAssert do
-      let b1 ← bound cos_delta
-      let acos_delta ← pyAcos b1
-      let b2 ← bound cos_qaz
-      let acos_qaz ← pyAcos b2
+      let acos_delta ← boundAcos cos_delta
+      let acos_qaz ← boundAcos cos_qaz
       let qaz_angles := if isSmall acos_qaz then [zero] else [acos_qaz, -acos_qaz]
       let delta_angles := if isSmall acos_delta then [zero] else [acos_delta, -acos_delta]
       let pairs := qaz_angles.flatMap fun qaz => delta_angles.map fun delta => (qaz, delta)
@@ -88,10 +83,7 @@ def detOrNaz (det : Option (DetCon α)) (naz : Option α) (theta : α) (tau : Op
     Py (List (α × Option α × α × α)) :=
   if det.isNone && naz.isNone then .error .assertion
   else
-    match nazQazAngle theta alpha tau with
-    | .error .assertion => .ok []
-    | .error e => .error e
-    | .ok nq =>
+    tryAssert (nazQazAngle theta alpha tau) fun nq =>
       match det with
       | some d => do
         let trip ← detRemaining d theta
